@@ -159,3 +159,21 @@ def run(ctx, rep):
                                                      for o in crep.obls), "static_assert with a wrong value must fail")
     versionchk(ctx, rep, led, tab)
     gates(ctx, rep, led, tab)
+    # derived format decisions (index widths) of the reader against the ledger
+    from .. import selectors as SEL
+    stab = load_table("selectors.json")
+    for p in stab["pairs"]:
+        cur = (led["constants"][p["version_constant"][0]] << 8) | led["constants"][p["version_constant"][1]]
+        r = SEL.render(SEL.selector_map(ctx.F, p["reader"], p["quantity"], cur, True))
+        want = led.get("selectors", {}).get(p["id"])
+        if want is None:
+            rep.broken("ledger has no selector table for " + p["id"])
+            continue
+        for k, toks in sorted(want.items()):
+            rep.add(Obligation("LEDGER-SELECTORS", p["id"], "case `%s`" % k, "-",
+                               DISCHARGED if r.get(k) == toks else VIOLATION,
+                               detail="reader reads %s where %s (ledger %s)" % (r.get(k), k.replace("q", p["quantity"]), toks)))
+        for k in r:
+            if k not in want:
+                rep.add(Obligation("LEDGER-SELECTORS", p["id"], "case `%s`" % k, "-", VIOLATION,
+                                   detail="reader has a new case %s -> %s that is not in the ledger" % (k, r[k])))
